@@ -16,7 +16,7 @@ func init() {
 	run.Register(&run.Check{
 		ID:    "C07",
 		Level: "exploration",
-		Cases: func(tier string) int { return tierN(tier, 3000, 40000) },
+		Cases: func(tier string) int { return tierN(tier, 3000, 24000) },
 		Run:   runC07,
 		Rule: "case = one history from the C01 (plain), C04 (GC cycles, with and without preceding flush, time-limited) or C02 (Close/reopen through snapshot and rescan) generators, by case index mod 3; after every completed Flush, after every Close and at the end the independent fsck reader evaluates the C07 invariant on the authoritative bucket table (live table while open, snapshot after Close); only fsck problems are verdicts here; " +
 			"non-trivial iff >=3 quiescent states were examined AND >=2 keys shared a bucket AND a file rolled over; distinct = hash of (configuration, digests, operations). Crash slice (case index mod 16 == 15): a C03-style history is imaged at every hook point (torn variants included, except torn primary appends = trigger class of known finding C03-F1); fsck is evaluated on each image with the bucket table a rescan would build (log replay - no snapshot exists after a crash); each image is then recovered by OpenStore, used further (puts, flushes, GC cycles) with imaging still on, and fsck is evaluated again on every image of the continuation and on the closed store. Post-concurrency states are examined by C05/C06 with the same fsck.",
@@ -156,7 +156,7 @@ func runC07Crash(c run.Ctx) *core.CaseResult {
 	}
 	limit := 12
 	if c.Tier == "thorough" {
-		limit = 300
+		limit = 30
 	}
 	stride := 1
 	if len(all) > limit {
